@@ -670,6 +670,14 @@ func (p *Path) sprintf(caller *frame, format string, args []Value) Str {
 			return Str{tok: &FmtTok{Format: format, X: &x}}
 		}
 	}
+	// a numeral assembled from two integers: whole part, '.', fractional digits (no padding)
+	if format == "%d.%d" && len(args) == 2 {
+		a, aok := natives[0].(*smt.Term)
+		b, bok := natives[1].(*smt.Term)
+		if aok && bok {
+			return Str{tok: &FmtTok{Format: format, Arg: a, Arg2: b}}
+		}
+	}
 	// piecewise formatting
 	var out []*smt.Term
 	approx := false
